@@ -743,6 +743,14 @@ Definition inject_option (args : list node) (name : String.string) (value : node
   end.
 Arguments inject_option _ _%string_scope _.
 
+(* has_define_component_option: the options object literal already has `name: …` *)
+Definition has_option (args : list node) (name : String.string) : bool :=
+  match args with
+  | _ :: Elem false (Obj props) :: _ => has_ident_key name props
+  | _ => false
+  end.
+Arguments has_option _ _%string_scope.
+
 Definition is_define_component_call (n : node) (s : st) : bool :=
   match n with
   | Call _ _ (Ident sym c _) _ _ =>
@@ -759,10 +767,14 @@ Definition hook_call (n : node) (s : st) : node * st :=
   else
     match n with
     | Call sy c f ((a0 :: _) as args) ta =>
-        let '(props, s) := extract_props_type a0 s in
-        let '(emits, s) := extract_emits_type a0 s in
-        let args := match props with Some p => inject_option args "props" p | None => args end in
-        let args := match emits with Some e => inject_option args "emits" e | None => args end in
+        let '(args, s) :=
+          if has_option args "props" then (args, s)
+          else let '(props, s) := extract_props_type a0 s in
+               (match props with Some p => inject_option args "props" p | None => args end, s) in
+        let '(args, s) :=
+          if has_option args "emits" then (args, s)
+          else let '(emits, s) := extract_emits_type a0 s in
+               (match emits with Some e => inject_option args "emits" e | None => args end, s) in
         (Call sy c f args ta, s)
     | _ => (n, s)
     end.
